@@ -7,9 +7,9 @@
 EXTENDS Integers, Sequences, FiniteSets, TLC, Json
 
 Trace == ndJsonDeserialize("trace.ndjson")
-VARIABLES l, running, ended
-vars == <<l, running, ended>>
-Init == l = 1 /\ running = {} /\ ended = TRUE
+VARIABLES l, running, ended, cur    \* cur = name of the singleton of the current history (late events of an earlier one are ignored)
+vars == <<l, running, ended, cur>>
+Init == l = 1 /\ running = {} /\ ended = TRUE /\ cur = ""
 Range(q) == {q[i] : i \in 1..Len(q)}
 Check(cond, what, id) == IF cond THEN TRUE ELSE PrintT(<<"MISMATCH", "C36", l, what, id>>)
 
@@ -17,22 +17,22 @@ Step ==
   /\ l <= Len(Trace)
   /\ l' = l + 1
   /\ LET e == Trace[l] IN
-     CASE e.ev = "New" -> running' = {} /\ ended' = FALSE
-       [] e.ev = "start" /\ ~ended ->
+     CASE e.ev = "New" -> running' = {} /\ ended' = FALSE /\ cur' = e.id
+       [] e.ev = "start" /\ ~ended /\ e.id = cur ->
             /\ running' = running \cup {<<e.inst, e.n>>}
             /\ Check(Cardinality(running') <= 1, "two instances of the singleton are running in the cluster at the same time", e.id)
-            /\ UNCHANGED ended
-       [] e.ev = "op" /\ ~ended /\ e.op = "RemoveActor" ->
+            /\ UNCHANGED <<ended, cur>>
+       [] e.ev = "op" /\ ~ended /\ e.op = "RemoveActor" /\ e.key = cur ->
             \* a record owned by a live survivor is never removed by a non-owner
-            /\ Check(~(e.prev # e.n /\ \E x \in running : x[2] = e.prev),
-                     "the registry record of a live singleton instance was removed by another node", e.key)
-            /\ UNCHANGED <<running, ended>>
-       [] e.ev = "stop" /\ ~ended ->
+            /\ Check(~(\E x \in running : x[2] = e.prev),
+                     "the registry record of a live singleton instance was removed by somebody else", e.key)
+            /\ UNCHANGED <<running, ended, cur>>
+       [] e.ev = "stop" /\ ~ended /\ e.id = cur ->
             /\ running' = {x \in running : x[1] # e.inst}
-            /\ UNCHANGED ended
+            /\ UNCHANGED <<ended, cur>>
        [] e.ev = "End" /\ ~ended ->
             /\ Check(Range(e.live) = {x[2] : x \in running}, "HARNESS: live bookkeeping differs from the monitor", e.id)
-            /\ ended' = TRUE /\ UNCHANGED running
-       [] OTHER -> UNCHANGED <<running, ended>>
+            /\ ended' = TRUE /\ UNCHANGED <<running, cur>>
+       [] OTHER -> UNCHANGED <<running, ended, cur>>
 Spec == Init /\ [][Step]_vars
 =============================================================================
